@@ -26,6 +26,9 @@ pub(crate) struct PeerSim {
     /// come from this (doctored) chain of the world, everything else (incl. check points) from
     /// its real chain
     pub filter_chain: Option<usize>,
+    /// the full node is this many blocks ahead of the last state it announced (it answers the
+    /// filter protocol - filters, filter hashes, check points - from its own tip)
+    pub ahead: u64,
 }
 
 #[derive(Clone, Debug)]
@@ -69,6 +72,7 @@ impl World {
             connected: false,
             silent: false,
             filter_chain: None,
+            ahead: 0,
         });
     }
     pub(crate) fn peer(&self, id: usize) -> &PeerSim {
@@ -90,7 +94,9 @@ impl World {
             _ => return vec![],
         };
         let view = View::new(&self.chains[peer.chain], peer.height);
-        let filter_view = View::new(&self.chains[peer.filter_chain.unwrap_or(peer.chain)], peer.height);
+        let fc = &self.chains[peer.filter_chain.unwrap_or(peer.chain)];
+        let filter_view = View::new(fc, (peer.height + peer.ahead).min(fc.tip_number()));
+        let cp_view = View::new(&self.chains[peer.chain], (peer.height + peer.ahead).min(self.chains[peer.chain].tip_number()));
         let mut out = vec![];
         let mut push = |proto: Proto, data: Bytes, note: String| {
             out.push(InFlight {
@@ -156,7 +162,7 @@ impl World {
                         let start: u64 = r.start_number().unpack();
                         push(
                             Proto::Filter,
-                            view.block_filter_check_points(start, self.cp_interval, self.cp_batch)
+                            cp_view.block_filter_check_points(start, self.cp_interval, self.cp_batch)
                                 .as_bytes(),
                             format!("BlockFilterCheckPoints({})", start),
                         )
